@@ -10,7 +10,11 @@ PROPS.append(('C02', """(* C02 - reported confidence never overstates the simila
    oracle whose only assumed property is validity of the edit script it returns
    ([valid_script]: Equal+Delete texts give the span, Equal+Insert texts give the
    document; no empty entries) - validated on every diff of every check run.
-   [lev] is the word-level Levenshtein distance. *)""", IMP_V2 + "\nFrom LC.V2 Require Import Glue.", [
+   [lev] is the word-level Levenshtein distance. *)""", IMP_V2 + "\nFrom LC.V2 Require Import Glue ScoringNoD3.", [
+ ('C02_confidence_bound_any_valid_script', 'C02_confidence_bound_noD3', 'V2/ScoringNoD3.v',
+  'THE PROPERTY, composed end to end, for ANY valid edit script - entries with an empty text included (go-diff emits them on repetitive text): an accepted match has Confidence <= fl(1 - fl(L/|K|)) for the true word-level Levenshtein distance L between the document and the reported span; a rejected one has confidence +0; Confidence = 1.0 only if span = document'),
+ ('C02_distance_and_span_any_valid_script', 'score_sound_cases_noD3', 'V2/ScoringNoD3.v',
+  'the case analysis behind it, without the no-empty-entry hypothesis'),
  ('C02_confidence_bound', 'C02_confidence_bound', 'V2/Glue.v',
   'THE PROPERTY, composed end to end (scoring model + float64): with R\' the span minus the reported offsets and K the document, an accepted match has Confidence <= fl(1 - fl(L/|K|)) for the true word-level Levenshtein distance L = lev R\' K; a rejected one has confidence +0; Confidence = 1.0 only if R\' = K'),
  ('C02_rejected_case_needs_the_guard', 'C02_rejected_counterexample', 'V2/Glue.v',
